@@ -399,7 +399,7 @@ def keep_impl(l):
     return True
 
 
-def correspond(ctx, binaries, cases, model_domain='remover', what='ScopedRemover'):
+def correspond(ctx, binaries, cases, model_domain='remover', what='ScopedRemover', also_legal_in=None):
     """runs the extracted model and the implementation(s) on the cases, compares per case.
     A disagreement is shrunk and reported as a violation; the replay holds the case and the
     model / proved-model / implementation traces."""
@@ -407,6 +407,11 @@ def correspond(ctx, binaries, cases, model_domain='remover', what='ScopedRemover
     texts = {i: case_text(i, cases[int(i)]) for i in ids}
     model = vlib.run_model(model_domain, ''.join(texts[i] for i in ids), driver='remover')
     usable = [i for i in ids if 'error' not in model.get(i, ['error'])]
+    if also_legal_in:
+        # fallback oracle: keep only the cases that are also within the contract of the model of the
+        # header as it is now, so that the real code is never driven into undefined behaviour
+        other = vlib.run_model(also_legal_in, ''.join(texts[i] for i in usable), driver='remover')
+        usable = [i for i in usable if 'error' not in other.get(i, ['error'])]
     stats = {'generated': len(cases), 'model_error_discarded': len(ids) - len(usable), 'compared': 0, 'disagreements': 0}
     feats, distinct = {}, set()
     for i in usable:
@@ -418,6 +423,7 @@ def correspond(ctx, binaries, cases, model_domain='remover', what='ScopedRemover
     stats['distinct_nontrivial'] = len(distinct)
     stats['features'] = feats
     reported = 0
+    seen_small = set()
     for bname, binary in binaries.items():
         impl = vlib.run_impl(binary, texts, usable)
         if '__exit__' in impl:
@@ -440,10 +446,16 @@ def correspond(ctx, binaries, cases, model_domain='remover', what='ScopedRemover
                 m = vlib.run_model(model_domain, t, driver='remover').get('0', ['error'])
                 if 'error' in m:
                     return False
+                if also_legal_in and 'error' in vlib.run_model(also_legal_in, t, driver='remover').get('0', ['error']):
+                    return False
                 im = vlib.run_impl(binary, {'0': t}, ['0'], timeout=60).get('0', ['<missing>'])
                 return m != im
             small = shrink(cases[int(i)], still)
             t = case_text('0', small)
+            if (bname, t) in seen_small:      # several inputs shrink to the same minimal case
+                reported -= 1
+                continue
+            seen_small.add((bname, t))
             m = vlib.run_model(model_domain, t, driver='remover').get('0', [])
             sp = vlib.run_model('remover-spec', t, driver='remover').get('0', [])
             im = vlib.run_impl(binary, {'0': t}, ['0'], timeout=60).get('0', [])
@@ -460,16 +472,25 @@ def correspond(ctx, binaries, cases, model_domain='remover', what='ScopedRemover
     return stats, model, texts, usable
 
 
-def replay_file(ctx, path, binaries, model_domain='remover'):
+def replay_file(ctx, path, binaries):
+    """re-runs the case(s) of a replay or corpus file: the model of the header as tie A reads it
+    now, the model the theorems are proved for, and the implementation.  A case counts as a
+    disagreement when the implementation differs from the proved model."""
     cases = parse_case_text(open(path).read())
     bad = 0
     for k, case in enumerate(cases):
         t = case_text(str(k), case)
-        m = vlib.run_model(model_domain, t, driver='remover').get(str(k), ['error'])
-        print('model : ' + ' | '.join(m))
+        m = vlib.run_model('remover', t, driver='remover').get(str(k), ['error'])
+        sp = vlib.run_model('remover-spec', t, driver='remover').get(str(k), ['error'])
+        print('case %s' % case.get('name', k))
+        print('model (header as read now): ' + ' | '.join(m))
+        print('model (proved)            : ' + ' | '.join(sp))
         for bname, binary in binaries.items():
             im = vlib.run_impl(binary, {str(k): t}, [str(k)], timeout=120).get(str(k), ['<missing>'])
             print('impl %s: %s' % (bname, ' | '.join(im)))
-            if 'error' not in m and m != im:
+            if 'error' not in sp and sp != im:
                 bad += 1
+                orp = orphans(case, im)
+                if orp:
+                    print('orphaned listeners (ran with no remover alive): ' + ' '.join(orp))
     return bad
